@@ -330,8 +330,8 @@ Section WithChecker.
    assumption; it is what the history checks of harness/c06.py test on the implementation) *)
 Variable check_solution : tx -> list (option txout) -> tx_context -> N -> outcome unit.
 
-(* Tx.is_solution_ok: ScriptError -> False, any other exception propagates *)
-Definition is_solution_ok (t : tx) (unspents : list (option txout)) (idx : nat) (flags : N) : outcome bool :=
+(* coins/Tx.py Tx.is_solution_ok (base class): ScriptError -> False, any other exception propagates *)
+Definition base_is_solution_ok (t : tx) (unspents : list (option txout)) (idx : nat) (flags : N) : outcome bool :=
   match nth_error unspents idx with
   | None => Ret false
   | Some None => Ret false
@@ -344,7 +344,12 @@ Definition is_solution_ok (t : tx) (unspents : list (option txout)) (idx : nat) 
     end
   end.
 
-(* sum(0 if is_solution_ok(idx) else 1 for idx in range(len(txs_in))); bitcoin Tx: 0 for a coinbase *)
+(* coins/bitcoin/Tx.py Tx.is_solution_ok (override): `if self.missing_unspent(idx): return False`, else the base class *)
+Definition is_solution_ok (t : tx) (unspents : list (option txout)) (idx : nat) (flags : N) : outcome bool :=
+  if missing_unspent t unspents idx then Ret false
+  else base_is_solution_ok t unspents idx flags.
+
+(* sum(0 if self.is_solution_ok(idx) else 1 for idx in range(len(txs_in))) — the override; bitcoin Tx: 0 for a coinbase *)
 Fixpoint count_bad (t : tx) (unspents : list (option txout)) (flags : N) (idxs : list nat) : outcome nat :=
   match idxs with
   | [] => Ret O
